@@ -11,7 +11,7 @@ no nodes).  `Props/C06.validate_iff_parse` proves they accept the same inputs.
 Recursion: `parseOperation` is the only truly recursive function (through the
 parenthesis case).  Its `fuel` bounds the parenthesis nesting depth and the
 number of `&&`/`||` loop iterations; `parseRoot` supplies `len(tokens)` which
-always suffices (`Props/C06.parse_ne_fuel`).
+always suffices (`Props/C06.parse_ne_fuel`, `tokenize_ne_fuel`, `validate_ne_fuel`).
 
 Token slices handed out by the tokenizer always end in `TokEOF` and the parser
 never consumes it, so the Go code's unchecked `tokens[0]` accesses cannot go out
